@@ -8,7 +8,8 @@ at the first of the seven modifiers `%H %M %S %I %k %l %s` (again by substring s
 with the positions of those fields, recalculation at noon/midnight (GMT) or every quarter hour (local time),
 digit patching from the second difference, plain `strftime` for instants before the cached one; and the
 formatter's split at the first `%Qms` / `%Qus` / `%Qns`, its exclusivity check and its fraction writer.
-`tz : Nat → ZInfo` is the time-zone database seen through `localtime_r` (GMT mode ignores it).
+`tz : Nat → ZInfo` is the time-zone database seen through `localtime_r` (GMT mode ignores it); `P` is the
+local-time recalculation period written in the header (extracted on every run).
 -/
 namespace Time
 
@@ -60,8 +61,10 @@ def patchTable : List (Char × Nat × Char × Nat) :=
 def rewriteTable : List (Char × String) := [('r', "%I:%M:%S %p"), ('R', "%H:%M"), ('T', "%H:%M:%S")]
 /-- the substring `init` rejects -/
 def rejectedTable : List String := ["%X"]
-/-- recalculation periods: seconds between recalculation points in local-time mode and in GMT mode -/
-def localPeriod : Nat := 900
+/-- `_next_noon_or_midnight_timestamp`: (hour bound of the test, hour set before noon, hour set after noon, minute,
+    second, seconds added after `timegm`) -/
+def noonMidnightTable : List Nat := [12, 11, 23, 59, 59, 1]
+/-- seconds between recalculation points in GMT mode (what the table above amounts to, see `nextNoonOrMidnight_eq`) -/
 def gmtPeriod : Nat := 43200
 
 def isModifier (c : Char) : Bool := (FT.ofChar c).isSome
@@ -138,14 +141,14 @@ def nextNoonOrMidnight (t : Nat) : Nat :=
   let h := if tm.hour < 12 then 11 else 23
   daysFromCivil (yearOf tm.days) (monOf tm.days) (mdayOf tm.days) * 86400 + h * 3600 + 59 * 60 + 59 + 1
 
-/-- `_next_quarter_hour_timestamp` -/
-def nextQuarterHour (t : Nat) : Nat := t / 900 * 900 + 900
+/-- `_next_quarter_hour_timestamp`: `P` is the literal of the header (900 in the pinned tree; extracted on every run) -/
+def nextQuarterHour (P : Nat) (t : Nat) : Nat := t / P * P + P
 
-def SFT.recalc (tz : Nat → ZInfo) (s : SFT) (t : Nat) : SFT :=
+def SFT.recalc (P : Nat) (tz : Nat → ZInfo) (s : SFT) (t : Nat) : SFT :=
   let tm := tmOf s.localTime tz t
   let r := populatePre tm s.parts [] []
   { s with pre := r.1, idx := r.2, cachedTs := t, cachedSecs := tm.hour * 3600 + tm.min * 60 + tm.sec,
-           nextRecalc := if s.localTime then nextQuarterHour t else nextNoonOrMidnight t }
+           nextRecalc := if s.localTime then nextQuarterHour P t else nextNoonOrMidnight t }
 
 /-- write `w` over `s` starting at position `i` (`format_to(&s[i], …)` / `memcpy(&s[i], …)`) -/
 def overwrite (s : List Char) (i : Nat) (w : List Char) : List Char :=
@@ -166,10 +169,10 @@ def patchAll (hours minutes seconds ts : Nat) (idx : List (Nat × FT)) (pre : Li
   idx.foldl (fun acc e => overwrite acc e.1 (patchText e.2 hours minutes seconds ts)) pre
 
 /-- `StringFromTime::format_timestamp` -/
-def SFT.step (tz : Nat → ZInfo) (s : SFT) (t : Nat) : SFT × List Char :=
+def SFT.step (P : Nat) (tz : Nat → ZInfo) (s : SFT) (t : Nat) : SFT × List Char :=
   if t < s.cachedTs then (s, safeStrftime s.fmt (tmOf s.localTime tz t))
   else
-    let s1 := if s.nextRecalc ≤ t then s.recalc tz t else s
+    let s1 := if s.nextRecalc ≤ t then s.recalc P tz t else s
     if s1.idx = [] then (s1, s1.pre)
     else if s1.cachedTs = t then (s1, s1.pre)
     else
@@ -227,26 +230,26 @@ def writeFrac (width : Nat) (v : Nat) : List Char :=
   overwrite zeros (zeros.length - ds.length) ds
 
 /-- `TimestampFormatter::format_timestamp` for `ns` nanoseconds since the epoch -/
-def TF.step (tz : Nat → ZInfo) (f : TF) (ns : Nat) : TF × List Char :=
+def TF.step (P : Nat) (tz : Nat → ZInfo) (f : TF) (ns : Nat) : TF × List Char :=
   let secs := ns / 1000000000
-  let r1 := f.p1.step tz secs
+  let r1 := f.p1.step P tz secs
   let extracted := ns - secs * 1000000000
   let mid := match f.spec with
     | some k => writeFrac k.width (k.value extracted)
     | none => []
   match f.p2 with
   | some p2 =>
-    let r2 := p2.step tz secs
+    let r2 := p2.step P tz secs
     ({ f with p1 := r1.1, p2 := some r2.1 }, r1.2 ++ mid ++ r2.2)
   | none => ({ f with p1 := r1.1 }, r1.2 ++ mid)
 
 /-- outputs of a whole history -/
-def TF.run (tz : Nat → ZInfo) : TF → List Nat → List (List Char)
+def TF.run (P : Nat) (tz : Nat → ZInfo) : TF → List Nat → List (List Char)
   | _, [] => []
-  | f, ns :: rest => (f.step tz ns).2 :: TF.run tz (f.step tz ns).1 rest
+  | f, ns :: rest => (f.step P tz ns).2 :: TF.run P tz (f.step P tz ns).1 rest
 
-def SFT.run (tz : Nat → ZInfo) : SFT → List Nat → List (List Char)
+def SFT.run (P : Nat) (tz : Nat → ZInfo) : SFT → List Nat → List (List Char)
   | _, [] => []
-  | s, t :: rest => (s.step tz t).2 :: SFT.run tz (s.step tz t).1 rest
+  | s, t :: rest => (s.step P tz t).2 :: SFT.run P tz (s.step P tz t).1 rest
 
 end Time
